@@ -29,7 +29,13 @@ def cancel_case(draw):
     cancels.append({"by": by, "target": target, "at": draw(st.integers(0, 12)) * 0.25,
                     "form": draw(st.sampled_from(["same", "rebuilt", "rebuilt", "roundtrip"]))})
   cancels.sort(key=lambda c: c["at"])
-  return {"sources": sources, "cancels": cancels, "schedule": [list(x) for x in draw(schedule_st)]}
+  # scheduling decisions scripted for the cancel instants themselves: short run lengths there
+  timed = {}
+  for c in cancels:
+    timed[str(c["at"])] = [list(x) for x in draw(st.lists(st.tuples(st.integers(0, 4), st.integers(1, 40)),
+                                                          max_size=5))]
+  return {"sources": sources, "cancels": cancels, "schedule": [list(x) for x in draw(schedule_st)],
+          "timed_schedule": timed}
 
 
 class C11(Prop):
@@ -54,6 +60,18 @@ class C11(Prop):
     return cancel_case()
 
   def check(self, case, stats):
+    if "window_search" in case:
+      # a listed finding described by a small family of schedules rather than one fragile
+      # schedule: at the cancel instant let the timer thread run K steps, then the canceller
+      lo, hi = case["window_search"]
+      for k in range(lo, hi + 1):
+        c = dict((a, b) for a, b in case.items() if a != "window_search")
+        c["timed_schedule"] = {str(case["cancels"][0]["at"]): [[1, k], [0, 2000]]}
+        self.check_one(c, stats)
+      return
+    return self.check_one(case, stats)
+
+  def check_one(self, case, stats):
     w = TimedWorld(case)
     Event, signals, rec = w.Event, w.signals, w.rec
     ids, info = [], {"cancel_ret": []}
